@@ -284,8 +284,25 @@ fn o_index(c: &IndexCase, st: &mut Stats) -> Result<(), String> {
     Ok(())
 }
 
+fn fuzz_seed_cases(target: &'static str) -> Vec<crate::fuzzrun::FuzzInput> {
+    let root = std::path::PathBuf::from(std::env::var("VERIF_ROOT").unwrap_or_else(|_| "/verif".into()));
+    crate::fuzzrun::seed_corpus(&root, target)
+}
+
+fn extra(ctx: &mut crate::engine::Ctx) -> serde_json::Value {
+    let a = crate::fuzzrun::campaign(ctx, "fz_roundtrip", "fuzz-inputs:fz_roundtrip", 3_200_000, 8192);
+    let b = crate::fuzzrun::campaign(ctx, "fz_api", "fuzz-inputs:fz_api", 6_400_000, 2048);
+    json!([a, b])
+}
+
 pub fn sections() -> Vec<Box<dyn Section>> {
     vec![
+        Box::new(Listed {
+            name: "fuzz-inputs:fz_roundtrip".into(),
+            cases: Box::new(|_| fuzz_seed_cases("fz_roundtrip")),
+            oracle: crate::fuzzrun::oracle,
+        }),
+        Box::new(Listed { name: "fuzz-inputs:fz_api".into(), cases: Box::new(|_| fuzz_seed_cases("fz_api")), oracle: crate::fuzzrun::oracle }),
         Box::new(Listed { name: "corpus".into(), cases: Box::new(|_| corpus().into_iter().map(str::to_string).collect()), oracle: o_string }),
         Box::new(Random {
             name: "parse-any-string".into(),
@@ -414,7 +431,8 @@ pub fn prop() -> Prop {
             "capacities requested are at most 64 (capacity overflow is Vec's contract); inputs at most 1 MiB; qualifier counts at most 20 000",
             "non-termination is bounded by a watchdog (exit 2, inconclusive)",
             "the crate has no unsafe code, so no sanitizer beyond overflow checks and debug assertions is used",
+            "thorough tier: libFuzzer targets fz_roundtrip and fz_api (cargo-fuzz, debug assertions and overflow checks on); the quick tier replays the committed seed corpus through the same oracles",
         ],
-        extra: None,
+        extra: Some(extra),
     }
 }
